@@ -17,6 +17,7 @@
   IEEE doubles enter only through the correspondence check (`harness/props/c10.py`).
 -/
 import SkyllhModel.Model.Pdf
+import SkyllhModel.Model.PdfR7
 import SkyllhModel.Proofs.Pdf
 import SkyllhModel.Proofs.RealScalar
 import SkyllhModel.Props.C14
@@ -1694,3 +1695,304 @@ example : ∃ s, spInit ([0, 1, 2] : List ℝ) [(0.5, 1), (1.5, 3)] = some s := 
 example : (spStep ([0, 1, 2] : List ℤ) ⟨[1, 3], [], []⟩ (.addEvents [0, 7])).cur = normHist [2, 3] [1, 1] := by decide
 -- two trials of equal event count where index 0 goes from on-time to off-time
 example : trialsRun (boxVal (0 : ℤ) 1) [(0, 1)] 1 none [[0], [5]] = [[1], [0]] := by decide
+
+/-! ## Round 7 — `get_pd` with parameter rows after the profile object was changed from outside -/
+
+namespace C10
+section rows
+variable {F : Type} [Add F] [Div F] [LE F] [DecidableLE F] [LT F] [DecidableLT F] [OfNat F 0]
+
+omit [Add F] [Div F] [LE F] [DecidableLE F] [LT F] [DecidableLT F] [OfNat F 0] in
+theorem setParamsRow_fields (s : TState2 F) (row : Option Nat) :
+    (setParamsRow s row).1.prof = row.getD s.prof ∧ (setParamsRow s row).1.ivs = s.ivs ∧
+    (setParamsRow s row).1.ivsId = s.ivsId ∧ (setParamsRow s row).1.trial = s.trial := by
+  cases row with
+  | none => simp [setParamsRow]
+  | some p => simp only [setParamsRow]; split_ifs with h <;> simp [h]
+
+theorem inv2_setParamsRow (table : Nat → F × F × (F → F → F)) (val : Nat → F → F) (s : TState2 F)
+    (row : Option Nat) (h : Inv2 table val s) : Inv2 table val (setParamsRow s row).1 := by
+  cases row with
+  | none => exact h
+  | some p => simp only [setParamsRow]; split_ifs <;> exact h
+
+/-- one pass of the source loop as coded (refresh not conditional on `updated`) -/
+theorem rowPass_current (table : Nat → F × F × (F → F → F)) (val : Nat → F → F) (times : List F)
+    (s : TState2 F) (row : Option Nat) (h : Inv2 table val s) :
+    Inv2 table val (rowPass false table val times s row).1 ∧
+    upToDate true (rowPass false table val times s row).1 = true ∧
+    (rowPass false table val times s row).1.ivs = s.ivs ∧
+    (rowPass false table val times s row).1.ivsId = s.ivsId ∧
+    (rowPass false table val times s row).1.prof = row.getD s.prof ∧
+    (rowPass false table val times s row).1.trial = s.trial ∧
+    (rowPass false table val times s row).2 = pdOfT val (rowPass false table val times s row).1 times ∧
+    (rowPass false table val times s row).2 =
+      (calcS table s.ivs (row.getD s.prof)).map (fun S => times.map (timePd (val (row.getD s.prof)) s.ivs S)) := by
+  have hr : rowPass false table val times s row =
+      (ensure2 true table (setParamsRow s row).1, pdOfT val (ensure2 true table (setParamsRow s row).1) times) := by
+    simp [rowPass]
+  rw [hr]
+  have hf := ensure2_fields table (setParamsRow s row).1
+  have hs := setParamsRow_fields s row
+  have hinv := inv2_ensure table val _ (inv2_setParamsRow table val s row h)
+  have hu := ensure2_upToDate table (setParamsRow s row).1
+  refine ⟨hinv, hu, by rw [hf.1, hs.2.1], by rw [hf.2.2.2, hs.2.2.1], by rw [hf.2.1, hs.1],
+    by rw [hf.2.2.1, hs.2.2.2], rfl, ?_⟩
+  simp only [pdOfT]
+  rw [inv2_S table val _ hinv hu, hf.1, hf.2.1, hs.1, hs.2.1]
+
+theorem calcPdRows_current (table : Nat → F × F × (F → F → F)) (val : Nat → F → F) (times : List F) :
+    ∀ (rows : List (Option Nat)) (s : TState2 F), Inv2 table val s →
+    Inv2 table val (calcPdRows false table val times s rows).1 ∧
+    (calcPdRows false table val times s rows).1.ivs = s.ivs ∧
+    (calcPdRows false table val times s rows).1.ivsId = s.ivsId ∧
+    (calcPdRows false table val times s rows).1.trial = s.trial ∧
+    (calcPdRows false table val times s rows).2 = rowsSpec table val s.ivs times s.prof rows := by
+  intro rows
+  induction rows with
+  | nil => intro s h; exact ⟨h, rfl, rfl, rfl, rfl⟩
+  | cons r rest ih =>
+    intro s h
+    obtain ⟨h1, _, h3, h4, h5, h6, _, h8⟩ := rowPass_current table val times s r h
+    obtain ⟨i1, i2, i3, i4, i5⟩ := ih (rowPass false table val times s r).1 h1
+    simp only [calcPdRows, rowsSpec]
+    refine ⟨i1, by rw [i2, h3], by rw [i3, h4], by rw [i4, h6], ?_⟩
+    rw [i5, h8, h3, h5]
+
+theorem inv2_step3 (table : Nat → F × F × (F → F → F)) (val : Nat → F → F) (s : TState2 F)
+    (op : TOp3 F) (h : Inv2 table val s) : Inv2 table val (tStep3 false table val s op) := by
+  cases op with
+  | base op => exact inv2_step table val s op h
+  | getRows times rows =>
+    simp only [tStep3, tGetRows]
+    split_ifs
+    · exact h
+    · exact (calcPdRows_current table val times rows s h).1
+  | initRows times =>
+    have h0 : Inv2 table val { s with trial := times, pd := none } :=
+      ⟨h.1, fun heq => ⟨(h.2 heq).1, fun l hl => by simp at hl⟩⟩
+    obtain ⟨h1, h2, _, _, _, h6, h7, _⟩ := rowPass_current table val times _ none h0
+    obtain ⟨hk1, hk2⟩ := (upToDate_iff _).mp h2
+    simp only [tStep3, tInitRows, calcPdRows]
+    refine ⟨h1.1, fun heq => ⟨(h1.2 heq).1, fun l hl => ?_⟩⟩
+    simp only at hl ⊢
+    rw [← hl, h7, pdOfT, h6, hk2]
+
+end rows
+end C10
+
+/-- **`get_pd` with a parameter recarray is current after any history** (code as it is): after any
+sequence of setter calls, changes of the shared profile object or of the interval array from
+outside, `initialize_for_new_trial` and `get_pd` calls with arbitrary parameter rows — every source of
+a `get_pd(tdm, params_recarray)` call is evaluated with the profile state its row selects and divided
+by the normalisation of exactly that state on the current live-time, also when the row equals the
+profile's current values or is empty (`set_params` reports no change).  When a pre-calculated `_pd`
+is served (constant PDF) the call must be the one of the protocol: the initialised trial, one source,
+parameters that do not move the profile. -/
+theorem c10_time_getpd_rows_current {F : Type} [Add F] [Div F] [LE F] [DecidableLE F] [LT F]
+    [DecidableLT F] [OfNat F 0] (table : Nat → F × F × (F → F → F)) (val : Nat → F → F)
+    (ivs : List (F × F)) (p : Nat) (ops : List (TOp3 F)) (times : List F) (rows : List (Option Nat)) :
+    let s := tRun3 false table val (tInit2 table ivs p) ops
+    (s.pd.isSome = true → upToDate true s = true → times = s.trial ∧ ∃ r, rows = [r] ∧ r.getD s.prof = s.prof) →
+    (tGetRows false table val s times rows).2 = rowsSpec table val s.ivs times s.prof rows := by
+  intro s hproto
+  have hgen : ∀ (ops : List (TOp3 F)) (s : TState2 F), C10.Inv2 table val s →
+      C10.Inv2 table val (tRun3 false table val s ops) := by
+    intro ops
+    induction ops with
+    | nil => intro s h; exact h
+    | cons op rest ih =>
+      intro s h
+      unfold tRun3
+      rw [List.foldl_cons]
+      exact ih _ (C10.inv2_step3 table val s op h)
+  have hinv : C10.Inv2 table val s :=
+    hgen ops _ ⟨Nat.le_refl _, fun _ => ⟨rfl, fun l hl => by simp [tInit2] at hl⟩⟩
+  unfold tGetRows
+  split_ifs with hc
+  · simp only [Bool.and_eq_true] at hc
+    obtain ⟨hsome, hu⟩ := hc
+    obtain ⟨ht, r, hr, hrp⟩ := hproto hsome hu
+    obtain ⟨h1, h2⟩ := (C10.upToDate_iff s).mp hu
+    obtain ⟨l, hl⟩ := Option.isSome_iff_exists.mp hsome
+    have := (hinv.2 h1).2 l hl
+    subst hr
+    simp only [rowsSpec, hrp]
+    rw [hl, this, (hinv.2 h1).1, h2, ht]
+  · exact (C10.calcPdRows_current table val times rows s hinv).2.2.2.2
+
+/-- hence every source's density is the normalised one of its own profile state (box profiles):
+instance of `c10_time_normalised_box` at the `S` the theorem above identifies — stated for the first row -/
+example : (tGetRows false (fun k => if k = 0 then ((0 : ℤ), 10, boxInt 0 10) else (0, 1, boxInt 0 1))
+    (fun k => if k = 0 then boxVal 0 10 else boxVal 0 1)
+    (tRun3 false (fun k => if k = 0 then ((0 : ℤ), 10, boxInt 0 10) else (0, 1, boxInt 0 1))
+      (fun k => if k = 0 then boxVal 0 10 else boxVal 0 1)
+      (tInit2 (fun k => if k = 0 then ((0 : ℤ), 10, boxInt 0 10) else (0, 1, boxInt 0 1)) [(0, 2)] 0)
+      [.base (.profileMutated 1)]) [0] [some 1]).2 = [some [1]] := by decide
+
+/-- the same claim when the refresh of `_S` is made conditional on the `updated` flag of `set_params` -/
+def c10_time_getpd_rows_gated_statement : Prop :=
+  ∀ (table : Nat → ℤ × ℤ × (ℤ → ℤ → ℤ)) (val : Nat → ℤ → ℤ) (ivs : List (ℤ × ℤ)) (p : Nat)
+    (ops : List (TOp3 ℤ)) (times : List ℤ) (rows : List (Option Nat)),
+    let s := tRun3 true table val (tInit2 table ivs p) ops
+    (s.pd.isSome = true → upToDate true s = true → times = s.trial ∧ ∃ r, rows = [r] ∧ r.getD s.prof = s.prof) →
+    (tGetRows true table val s times rows).2 = rowsSpec table val s.ivs times s.prof rows
+
+/-- live-time `[0,2)`, box window `[0,10]` (S = 2) moved from outside to `[0,1]` (S = 1), then `get_pd`
+with a row equal to the profile's current values: the gated variant divides by the stale `S = 2`
+(density 0 in ℤ arithmetic, i.e. 1/2) instead of 1 — the integral over the on-time is 1/2. -/
+theorem c10_time_getpd_rows_gated_counterexample : ¬ c10_time_getpd_rows_gated_statement := by
+  intro h
+  have := h (fun k => if k = 0 then (0, 10, boxInt 0 10) else (0, 1, boxInt 0 1))
+    (fun k => if k = 0 then boxVal 0 10 else boxVal 0 1) [(0, 2)] 0
+    [.base (.profileMutated 1)] [0] [some 1] (fun hs => absurd hs (by decide))
+  revert this
+  decide
+
+/-! ## Round 7 — `BackgroundTimePDF.get_pd`: current or RuntimeError -/
+
+namespace C10
+section bkg
+variable {F : Type} [Add F] [Div F] [LE F] [DecidableLE F] [LT F] [DecidableLT F] [OfNat F 0]
+
+theorem inv2_bStep (table : Nat → F × F × (F → F → F)) (val : Nat → F → F) (s : TState2 F)
+    (op : TOp2 F) (h : Inv2 table val s) : Inv2 table val (bStep table val s op) := by
+  cases op with
+  | getPd => exact h
+  | setLivetime ivs => exact inv2_step table val s (.setLivetime ivs) h
+  | setProfile p => exact inv2_step table val s (.setProfile p) h
+  | profileMutated p => exact inv2_step table val s (.profileMutated p) h
+  | livetimeMutated ivs => exact inv2_step table val s (.livetimeMutated ivs) h
+  | initTrial times => exact inv2_step table val s (.initTrial times) h
+  | checkValid => exact inv2_step table val s .checkValid h
+
+theorem inv2_bRun (table : Nat → F × F × (F → F → F)) (val : Nat → F → F) :
+    ∀ (ops : List (TOp2 F)) (s : TState2 F), Inv2 table val s → Inv2 table val (bRun table val s ops) := by
+  intro ops
+  induction ops with
+  | nil => intro s h; exact h
+  | cons op rest ih =>
+    intro s h
+    unfold bRun
+    rw [List.foldl_cons]
+    exact ih _ (inv2_bStep table val s op h)
+
+theorem bGet_current (table : Nat → F × F × (F → F → F)) (val : Nat → F → F) (s : TState2 F)
+    (h : Inv2 table val s) (l : List F) (hl : bGet s = some l) :
+    some l = (calcS table s.ivs s.prof).map (fun S => s.trial.map (timePd (val s.prof) s.ivs S)) := by
+  unfold bGet at hl
+  split_ifs at hl with hc
+  simp only [Bool.or_eq_true, Bool.not_eq_eq_eq_not, Bool.not_true, not_or, Bool.not_eq_false] at hc
+  obtain ⟨h1, h2⟩ := (upToDate_iff s).mp hc.2
+  have := (h.2 h1).2 l hl
+  rw [this, (h.2 h1).1, h2]
+
+theorem bGet_after_init (table : Nat → F × F × (F → F → F)) (val : Nat → F → F) (s : TState2 F)
+    (h : Inv2 table val s) (times : List F) :
+    bGet (bStep table val s (.initTrial times)) =
+      (calcS table s.ivs s.prof).map (fun S => times.map (timePd (val s.prof) s.ivs S)) := by
+  have h0 : Inv2 table val { s with trial := times, pd := none } :=
+    ⟨h.1, fun heq => ⟨(h.2 heq).1, fun l hl => by simp at hl⟩⟩
+  have hsame : ensure2 true table { s with trial := times } =
+      { ensure2 true table { s with trial := times, pd := none } with pd := (ensure2 true table { s with trial := times }).pd } := by
+    unfold ensure2 upToDate refresh2
+    simp only
+    split_ifs <;> simp
+  have hu := ensure2_upToDate table { s with trial := times, pd := none }
+  have hinv := inv2_ensure table val _ h0
+  have hS := inv2_S table val _ hinv hu
+  have hf := ensure2_fields table { s with trial := times, pd := none }
+  obtain ⟨hk1, hk2⟩ := (upToDate_iff _).mp hu
+  show bGet (tStep2 true table val s (.initTrial times)) = _
+  simp only [tStep2]
+  rw [hsame]
+  unfold bGet pdOf upToDate
+  simp only [Bool.not_true, Bool.false_or, hS, hf.1, hf.2.1, hf.2.2.1, hf.2.2.2]
+  have hkey : (ensure2 true table { s with trial := times, pd := none }).key = (s.ivsId, s.prof) := by
+    exact Prod.ext (hk1.trans hf.2.2.2) (hk2.trans hf.2.1)
+  rw [hkey]
+  cases hcs : calcS table s.ivs s.prof <;> simp
+
+end bkg
+end C10
+
+/-- **`BackgroundTimePDF.get_pd` is current or refuses**: after any history of `initialize_for_new_trial`,
+setter calls, changes of the profile object or of the interval array from outside and validity checks,
+`get_pd` either raises the RuntimeError (`none`) or returns the density of the initialised trial for the
+*current* live-time and profile, divided by the normalisation computed from exactly these. -/
+theorem c10_time_bkg_getpd_current_or_refuses {F : Type} [Add F] [Div F] [LE F] [DecidableLE F] [LT F]
+    [DecidableLT F] [OfNat F 0] (table : Nat → F × F × (F → F → F)) (val : Nat → F → F)
+    (ivs : List (F × F)) (p : Nat) (ops : List (TOp2 F)) :
+    let s := bRun table val (tInit2 table ivs p) ops
+    ∀ l, bGet s = some l →
+      some l = (calcS table s.ivs s.prof).map (fun S => s.trial.map (timePd (val s.prof) s.ivs S)) := by
+  intro s l hl
+  exact C10.bGet_current table val s
+    (C10.inv2_bRun table val ops _ ⟨Nat.le_refl _, fun _ => ⟨rfl, fun l hl => by simp [tInit2] at hl⟩⟩) l hl
+
+/-- … and directly after `initialize_for_new_trial` it does not refuse: it returns the density of the new
+trial for the current live-time and profile (`none` only if the window query itself raised, which
+`c10_time_S_refines` excludes for sorted intervals and `ts < te`). -/
+theorem c10_time_bkg_getpd_after_init {F : Type} [Add F] [Div F] [LE F] [DecidableLE F] [LT F]
+    [DecidableLT F] [OfNat F 0] (table : Nat → F × F × (F → F → F)) (val : Nat → F → F)
+    (ivs : List (F × F)) (p : Nat) (ops : List (TOp2 F)) (times : List F) :
+    let s := bRun table val (tInit2 table ivs p) ops
+    bGet (bStep table val s (.initTrial times)) =
+      (calcS table s.ivs s.prof).map (fun S => times.map (timePd (val s.prof) s.ivs S)) := by
+  intro s
+  exact C10.bGet_after_init table val s
+    (C10.inv2_bRun table val ops _ ⟨Nat.le_refl _, fun _ => ⟨rfl, fun l hl => by simp [tInit2] at hl⟩⟩) times
+
+-- a background PDF whose live-time was replaced after the initialisation refuses, and answers again after the next one
+example : let table : Nat → ℤ × ℤ × (ℤ → ℤ → ℤ) := fun _ => (0, 10, boxInt 0 10)
+    let val : Nat → ℤ → ℤ := fun _ => boxVal 0 10
+    bGet (bRun table val (tInit2 table [(0, 1)] 0) [.initTrial [0, 3]]) = some [1, 0] ∧
+    bGet (bRun table val (tInit2 table [(0, 1)] 0) [.initTrial [0, 3], .setLivetime [(3, 4)]]) = none ∧
+    bGet (bRun table val (tInit2 table [(0, 1)] 0) [.initTrial [0, 3], .setLivetime [(3, 4)], .initTrial [0, 3]]) = some [0, 1] := by
+  decide
+
+/-! ## Round 7 — every source of a `get_pd` call is normalised after any history -/
+
+theorem C10.rowsSpec_mem {F : Type} [Add F] [Div F] [LE F] [DecidableLE F] [LT F] [DecidableLT F] [OfNat F 0]
+    (table : Nat → F × F × (F → F → F)) (val : Nat → F → F) (ivs : List (F × F)) (times : List F) :
+    ∀ (rows : List (Option Nat)) (p : Nat) (l : List F), some l ∈ rowsSpec table val ivs times p rows →
+      ∃ q S, calcS table ivs q = some S ∧ l = times.map (timePd (val q) ivs S) := by
+  intro rows
+  induction rows with
+  | nil => intro p l h; simp [rowsSpec] at h
+  | cons r rest ih =>
+    intro p l h
+    simp only [rowsSpec, List.mem_cons] at h
+    rcases h with h | h
+    · cases hc : calcS table ivs (r.getD p) with
+      | none => rw [hc] at h; simp at h
+      | some S =>
+        rw [hc] at h
+        simp only [Option.map_some, Option.some.injEq] at h
+        exact ⟨r.getD p, S, hc, h⟩
+    · exact ih _ l h
+
+/-- **every source of a `get_pd` call is non-negative and normalised after any history** (box profiles, ℝ):
+whatever was done to the PDF, its live-time and its (shared) profile object before, and whatever
+parameter rows are passed, each source's returned values are the values of a density
+`timePd (boxVal …) ivs S` of some profile state `q` on the current live-time that is `≥ 0` everywhere and,
+when `S > 0`, integrates to one over the current on-time (`S ≤ 0`: the density is identically zero,
+`c10_time_no_overlap_zero`). -/
+theorem c10_time_rows_normalised_box (tss tes : Nat → ℝ) (ivs : List (ℝ × ℝ)) (p : Nat)
+    (ops : List (TOp3 ℝ)) (times : List ℝ) (rows : List (Option Nat)) (hwin : ∀ k, tss k < tes k) :
+    let table := fun k => (tss k, tes k, boxInt (tss k) (tes k))
+    let val := fun k => boxVal (tss k) (tes k)
+    let s := tRun3 false table val (tInit2 table ivs p) ops
+    C14.Sorted s.ivs →
+    (s.pd.isSome = true → upToDate true s = true → times = s.trial ∧ ∃ r, rows = [r] ∧ r.getD s.prof = s.prof) →
+    ∀ l, some l ∈ (tGetRows false table val s times rows).2 →
+      ∃ q S, l = times.map (timePd (val q) s.ivs S) ∧ (∀ t, 0 ≤ timePd (val q) s.ivs S t) ∧
+        (0 < S → C10.onIntegral s.ivs (timePd (val q) s.ivs S) = 1) := by
+  intro table val s hsorted hproto l hl
+  rw [c10_time_getpd_rows_current table val ivs p ops times rows hproto] at hl
+  obtain ⟨q, S, hS, hlq⟩ := C10.rowsSpec_mem table val s.ivs times rows s.prof l hl
+  refine ⟨q, S, hlq, ?_, fun hpos => ?_⟩
+  · intro t
+    apply c10_time_nonneg
+    intro u; simp only [val]; unfold boxVal; split_ifs <;> norm_num
+  · exact (c10_time_normalised_box s.ivs (tss q) (tes q) S hsorted (hwin q) hS hpos).2
